@@ -31,3 +31,37 @@ const VerifMaxByteFrameSize = maxByteFrameSize
 
 // VerifState exposes the replicated state of the swarm.
 func (s *Swarm) VerifState() *event.State { return s.state }
+
+// VerifSetGossip replaces the sending side of the gossip layer (before any peer exists).
+func (s *Swarm) VerifSetGossip(g mesh.Gossip) { s.gossip = g }
+
+// VerifOffline runs what the gossip layer triggers when it collects an unreachable peer.
+func (s *Swarm) VerifOffline(name mesh.PeerName) { s.onPeerOffline(name) }
+
+// VerifCounter is one subscription counter of a member.
+type VerifCounter struct {
+	Peer  mesh.PeerName
+	Ssid  message.Ssid
+	Count int
+}
+
+// VerifMembers returns the member list with every member's subscription counters.
+func (s *Swarm) VerifMembers() (names []mesh.PeerName, counters []VerifCounter) {
+	s.members.list.Range(func(k, v interface{}) bool {
+		p := v.(*Peer)
+		names = append(names, p.name)
+		for _, c := range p.subs.All() {
+			counters = append(counters, VerifCounter{Peer: p.name, Ssid: c.Ssid, Count: c.Counter})
+		}
+		return true
+	})
+	return
+}
+
+// VerifFlushAll flushes the message frames queued for every member.
+func (s *Swarm) VerifFlushAll() {
+	s.members.list.Range(func(k, v interface{}) bool {
+		v.(*Peer).processSendQueue()
+		return true
+	})
+}
